@@ -3,6 +3,7 @@ package openapi3
 import (
 	"context"
 	"encoding/json"
+	"errors"
 	"fmt"
 )
 
@@ -23,6 +24,9 @@ func (tags Tags) Validate(ctx context.Context, opts ...ValidationOption) error {
 	ctx = WithValidationOptions(ctx, opts...)
 
 	for _, v := range tags {
+		if v == nil {
+			return errors.New("value of tag can't be null")
+		}
 		if err := v.Validate(ctx); err != nil {
 			return err
 		}
